@@ -182,7 +182,7 @@ def producers(hir, expr, params=(), defs=None, limit=200):
                     for p in path:
                         out.add(p)
                 elif path:
-                    out.add(("other", "pattern"))
+                    out.add(path[-1] if isinstance(path[-1], tuple) else ("other", "pattern"))   # bound by a pattern: the place it names
                 else:
                     work.append(src)
         elif k in ("AddrOf", "Cast", "Unary"):
